@@ -327,10 +327,21 @@ func (g *G) Bool(d int) *Node {
 	if g.Skeleton {
 		r := g.R.Intn(100)
 		switch {
-		case r < 62:
+		case r < 56:
 			return g.andOr(d)
-		case r < 78:
+		case r < 70:
 			return Op(g.name("not"), TBool, g.Bool(d-1))
+		case r < 78:
+			// the other boolean folds, nested among and/or
+			k := 2 + g.R.Intn(2)
+			ch := make([]*Node, k)
+			for i := range ch {
+				ch[i] = g.Bool(d - 1)
+			}
+			if g.R.Intn(3) == 0 {
+				return Op(g.name("eq"), TBool, ch...)
+			}
+			return Op("xor", TBool, ch...)
 		default:
 			return If(g.Bool(d-1), g.Bool(d-1), g.Bool(d-1))
 		}
